@@ -143,6 +143,10 @@ func (u *upstream) serve() {
 }
 
 var e2eNames = []string{"X-Vf-A", "x-vf-a", "X-VF-A", "X-Vf-B", "x-vf-b", "X-Vf-Bc", "X-Vf-C"}
+
+// probe names: the X-Vf-* fields plus User-Agent, the one standard field whose presence at the next hop
+// depends on where the user rules run relative to the proxy's own "no default User-Agent" step
+var e2eProbe = append(append([]string{}, e2eNames...), "User-Agent", "user-agent")
 var e2eVals = []string{"1", "two", "a b", "x;y"}
 
 // genE2ERules: 1..3 rules; an adjacent exact repeat of a rule now and then.
@@ -158,6 +162,9 @@ func genE2ERules(r *rng.R) []string {
 }
 
 func genE2ERule(r *rng.R) string {
+	if r.Chance(1, 8) {
+		return r.Pick([]string{"-User-Agent", "-user*", "-User-*", "User-Agent;", "%user-agent", "User-Agent: vf/1"})
+	}
 	n := r.Pick(e2eNames)
 	switch r.Intn(8) {
 	case 0:
@@ -175,6 +182,9 @@ func genE2ERule(r *rng.R) string {
 
 func genRawHeader(r *rng.R) rawHeader {
 	h := rawHeader{}
+	if r.Chance(1, 2) {
+		h["User-Agent"] = []string{r.Pick([]string{"vf-client/1", "curl/8", "a b"})}
+	}
 	n := r.Intn(4)
 	for i := 0; i < n; i++ {
 		k := r.Pick([]string{"X-Vf-A", "X-Vf-B", "X-Vf-Bc", "X-Vf-C"})
@@ -206,7 +216,7 @@ type e2eCaseJSON struct {
 }
 
 func probeList() string {
-	return coqfmt.StrList(e2eNames)
+	return coqfmt.StrList(e2eProbe)
 }
 
 func sendHeaders(w *strings.Builder, h rawHeader) {
@@ -225,7 +235,7 @@ func sendHeaders(w *strings.Builder, h rawHeader) {
 func filterProbe(h rawHeader) rawHeader {
 	out := rawHeader{}
 	for k, v := range h {
-		if strings.HasPrefix(strings.ToLower(k), "x-vf-") {
+		if lk := strings.ToLower(k); strings.HasPrefix(lk, "x-vf-") || lk == "user-agent" {
 			out[k] = v
 		}
 	}
@@ -244,6 +254,13 @@ func runE2E(bin string, r *rng.R, configs int) ([]string, []any, error) {
 			req = []string{"X-Vf-A: two", "X-Vf-A: two", "%x-vf-b", "X-Vf-B: 1"}
 			con = []string{"X-Vf-B: x;y", "%x-vf-c"}
 			resp = []string{"-X-Vf-B*", "X-Vf-C;", "X-Vf-A: 1", "X-Vf-A: 1"}
+		}
+		if ci == 1 {
+			// corpus configuration 2 (always runs): the client's User-Agent is removed by a rule; the next hop
+			// must see no User-Agent at all (no default invented after the rules ran)
+			req = []string{"-User-Agent"}
+			con = []string{"-user*"}
+			resp = []string{"X-Vf-A: 1"}
 		}
 		l, err := net.Listen("tcp", "127.0.0.1:0")
 		if err != nil {
@@ -295,6 +312,9 @@ func runE2E(bin string, r *rng.R, configs int) ([]string, []any, error) {
 		// two plain requests and two CONNECTs per configuration
 		for k := 0; k < 2; k++ {
 			in := genRawHeader(r)
+			if ci == 1 {
+				in["User-Agent"] = []string{"vf-client/1"}
+			}
 			c, err := net.DialTimeout("tcp", addr, time.Second)
 			if err != nil {
 				break
